@@ -306,6 +306,26 @@ def run(ctx):
                    fn=b.path, construct="refusal-after-write", callee=last, where=b.where(p.blocks[-1]),
                    sample={"rule": "err-on-packet-boundary", "fn": b.path, "failing": src[1] if src else None})
     ctx.floor("C13.err-on-packet-boundary", "error-return paths of the row writer", n_ref, 6)
+    # (a') the same for the text encoders, which write straight into the packet: an encoder that refuses a value (a date that does not
+    # exist, ...) does so before it has written anything of it
+    encs = prog.find(r" as value::encode::ToMysqlValue>::to_mysql_text$")
+    ctx.floor("C13.err-on-packet-boundary", "text encoders", len(encs), 22)
+    for b in encs:
+        for p in enumerate_paths(b, max_visits=1):
+            if p.end != "return" or classify_return(p) != "err":
+                continue
+            W = [(pos, t) for pos, blk, t in p.calls()
+                 if "indirect" not in t["func"] and (wire.classify_call(p, pos, t) is not None or re.search(r"io::Write::(write|write_all|write_fmt)$", t["func"]["path"]))]
+            if not W:
+                continue
+            rv = p.return_value()
+            src = T.find(rv, lambda x: isinstance(x, tuple) and x[0] == "call" and not re.search(r"from_residual$|Try>::branch$|map_err$|Into<.*>>::into$|From<.*>>::from$|Result::<T, E>::map$", x[1]))
+            last = cname(W[-1][1]["func"])
+            decl = W[-1][1]["func"]["path"]
+            ok = src is not None and (src[1] == last or src[1] == decl)
+            ctx.ob("C13.err-on-packet-boundary", ok,
+                   "%s refuses the value (%s) after %d write(s) of it into the packet; an ERR reported next is appended to those bytes"
+                   % (b.path[:70], term_str(rv)[:90], len(W)), fn=b.path, construct="encoder-refusal-after-write", callee=last, where=b.where(p.blocks[-1]))
     fi = prog.find(r"^resultset::RowWriter::<'a, W>::finish_inner$")
     if ctx.floor("C13.err-on-packet-boundary", "finish_inner", len(fi), 1):
         b = fi[0]
